@@ -54,8 +54,15 @@ def gen_client(rng: random.Random, mode: str, n_ops: int, defs=None):
             elif r < 0.41:
                 ops.append({"op": "parse", "t": t, "seed": rng.getrandbits(30), "n": rng.randrange(0, 4)})
                 n_parse += 1
-            elif r < 0.60:
+            elif r < 0.57:
                 ops.append(gen_mutation(rng, defs, paths, h))
+            elif r < 0.60:
+                # a constant is redefined (by a #define line or through cs.consts): later parses of structures whose
+                # lengths still refer to it by name must follow, exactly as on an object that never parsed before
+                if defs["defines"]:
+                    ops.append({"op": "redefine", "name": rng.choice(defs["defines"])[0], "v": rng.randint(0, 4), "via": rng.choice(["load", "consts"])})
+                else:
+                    ops.append({"op": "dump", "h": h})
             elif r < 0.66:
                 # a structure of this client built through the Python API: update blocks stay open ACROSS other clients' ops
                 bn = rng.choice(["B1", "B1", "B2"])
@@ -124,7 +131,9 @@ def gen_client(rng: random.Random, mode: str, n_ops: int, defs=None):
                 ops.append(m)
             else:
                 ops.append({"op": "dump", "h": h})
-    return {"cfg": cfg, "defs": defs, "ops": ops}
+    # late_defines: the structures are loaded BEFORE the #define lines they refer to, so array lengths stay expressions
+    # that look the constants up by name at parse time (instead of being folded when the definition is loaded)
+    return {"cfg": cfg, "defs": defs, "ops": ops, "late_defines": mode == "C14" and bool(defs["defines"]) and rng.random() < 0.3}
 
 
 def gen_mutation(rng, defs, paths, h, simple=False):
@@ -226,7 +235,9 @@ class Client:
         self.first_default = {}
         self.parse_memo = {}
         self.extra_loaded = False
-        self.loaded_texts = []
+        self.loaded_texts = []  # ("load", text) | ("const", name, value): what a fresh object must replay
+        self.epoch = 0  # number of constant redefinitions so far (part of the parse memo key)
+        self.force_fresh = 0
         self.built = {}  # name -> [structure class, open update contexts, number of fields added]
 
 
@@ -308,6 +319,15 @@ def _has_union(t, depth=0):
     return False
 
 
+def _load_defs(cs, spec):
+    kw = {"compiled": spec["cfg"]["compiled"], "align": spec["cfg"]["align"]}
+    if spec.get("late_defines"):
+        cs.load(gen.render(dict(spec["defs"], defines=[])), **kw)
+        cs.load("".join(f"#define {n} {v}\n" for n, v in spec["defs"]["defines"]), **kw)
+    else:
+        cs.load(gen.render(spec["defs"]), **kw)
+
+
 def exec_op(cl: Client, op, stats, mode, peers=None):
     """Execute one op of a client; returns a JSON-able outcome. Model oracles raise Violation."""
     k = op["op"]
@@ -317,7 +337,9 @@ def exec_op(cl: Client, op, stats, mode, peers=None):
 
         def f():
             cl.cs = cstruct(endian=cl.spec["cfg"]["endian"], pointer=cl.spec["cfg"]["pointer"])
-            cl.cs.load(gen.render(cl.spec["defs"]), compiled=cl.spec["cfg"]["compiled"], align=cl.spec["cfg"]["align"])
+            _load_defs(cl.cs, cl.spec)
+            if cl.spec.get("late_defines"):
+                stats.count("probe.client_with_late_defines")
             return ["ok"]
         return _outcome(f)
     if cs is None:
@@ -353,17 +375,21 @@ def exec_op(cl: Client, op, stats, mode, peers=None):
             cl.handles.append(v)
             return ["val", observe(v), st.tell()]
         out = _outcome(f)
-        key = (op["t"], op["seed"], op["n"], bool(op.get("bytes")), cs.endian)
-        if mode == "C14" and op["seed"] % 5 == 0 and not cl.extra_loaded:
+        key = (op["t"], op["seed"], op["n"], bool(op.get("bytes")), cs.endian, cl.epoch)
+        if mode == "C14" and (op["seed"] % 5 == 0 or cl.force_fresh > 0) and not cl.extra_loaded:
+            cl.force_fresh -= 1
             # the same parse by an object with NO history: same definitions loaded into a fresh cstruct created with the
             # endianness that is current now
             def fresh():
                 from dissect.cstruct import cstruct
 
                 c2 = cstruct(endian=cs.endian, pointer=cl.spec["cfg"]["pointer"])
-                c2.load(gen.render(cl.spec["defs"]), compiled=cl.spec["cfg"]["compiled"], align=cl.spec["cfg"]["align"])
-                for text in cl.loaded_texts:
-                    c2.load(text, compiled=cl.spec["cfg"]["compiled"], align=cl.spec["cfg"]["align"])
+                _load_defs(c2, cl.spec)
+                for item in cl.loaded_texts:
+                    if item[0] == "load":
+                        c2.load(item[1], compiled=cl.spec["cfg"]["compiled"], align=cl.spec["cfg"]["align"])
+                    else:
+                        c2.consts[item[1]] = item[2]
                 t2 = getattr(c2, op["t"])
                 if op.get("bytes"):
                     return ["val", observe(t2(data)), -1]
@@ -436,10 +462,22 @@ def exec_op(cl: Client, op, stats, mode, peers=None):
             return ["ok"]
         out = _outcome(f)
         if out == ["ok"]:
-            cl.loaded_texts.append(op["text"])  # the fresh-object reference replays successful loads
+            cl.loaded_texts.append(("load", op["text"]))  # the fresh-object reference replays successful loads
         else:
             cl.extra_loaded = True  # a load that failed half-way may legitimately have registered part of its text
         return out
+    if k == "redefine":
+        def f():
+            if op["via"] == "load":
+                cs.load(f"#define {op['name']} {op['v']}\n")
+                cl.loaded_texts.append(("load", f"#define {op['name']} {op['v']}\n"))
+            else:
+                cs.consts[op["name"]] = op["v"]
+                cl.loaded_texts.append(("const", op["name"], op["v"]))
+            cl.epoch += 1
+            cl.force_fresh = 3  # the next parses are compared with an object that replays loads and redefinitions only
+            return ["ok"]
+        return _outcome(f)
     if k == "load_bad":
         cl.extra_loaded = True
         return _outcome(lambda: (cs.load(op["text"]), ["ok"])[1])
@@ -756,6 +794,12 @@ def run_world(case, stats, mode):
                             client=len(alone_logs), op_index=log["at"])
         log = json.loads(json.dumps(log))
         if log[0] != ["ok"]:
+            if mode == "C17" and log[0][0] == "exc" and log[0][1] in gen.INTERNAL_ERRORS + ("SyntaxError",):
+                # the definitions are valid by construction: a loader that dies with an internal error (not a parser or
+                # resolve error) leaves a structure type of which no instance can be constructed at all
+                raise Violation("c17_construct", "structure_class_cannot_be_created",
+                                f"client {len(alone_logs)}: loading its (valid) definitions raised {log[0][1]}: "
+                                + gen.render(c["defs"])[:1500], client=len(alone_logs), op_index=0)
             raise Discard("load_fail")
         alone_logs.append(log)
     clients = [Client(c) for c in case["clients"]]
